@@ -2,7 +2,7 @@
 #include "wl_common.h"
 #include <time.h>
 
-const char *wl_sched_names[] = { "BASIC", "BASIC_WAIT", "PRIO", "RANDWS" };
+const char *wl_sched_names[] = { "BASIC", "BASIC_WAIT", "PRIO", "RANDWS", "USER" };
 static const ABT_sched_predef sched_predefs[] = { ABT_SCHED_BASIC, ABT_SCHED_BASIC_WAIT, ABT_SCHED_PRIO, ABT_SCHED_RANDWS };
 const char *wl_pool_names[] = { "FIFO", "FIFO_WAIT", "RANDWS", "USER" };
 static const ABT_pool_kind pool_kinds[] = { ABT_POOL_FIFO, ABT_POOL_FIFO_WAIT, ABT_POOL_RANDWS };
@@ -15,8 +15,10 @@ static void env_int(const char *name, long v)
     sim_note("%s=%ld ", name, v);
 }
 
+int wl_debug;
 void wl_env_swarm(void)
 {
+    wl_debug = getenv("WL_DEBUG") != NULL;
     /* Argobots' own tuning knobs, randomised per run (DESIGN 2.7). */
     if (plan_n(4) != 0) {
         static const int freqs[] = { 1, 2, 3, 5, 8, 16, 50, 64 };
@@ -192,10 +194,91 @@ static ABT_pool mkpool(wl_rt *rt, int flags, int es)
     return p;
 }
 
+/* ---- a user-defined scheduler (ABT_sched_def), written the way the library's examples do:
+ * pop a unit, run it with ABT_self_schedule (or the older ABT_xstream_run_unit), every few
+ * units ask ABT_sched_has_to_stop and ABT_xstream_check_events.  Pools are served round-robin,
+ * so no pool can be starved by a perpetually yielding unit in another one. ---- */
+typedef struct usched {
+    int n, freq, legacy_run;
+    ABT_pool pools[4];
+} usched;
+static ABT_sched_config_var us_cv_freq = { .idx = 0, .type = ABT_SCHED_CONFIG_INT };
+static ABT_sched_config_var us_cv_legacy = { .idx = 1, .type = ABT_SCHED_CONFIG_INT };
+static long us_units_run;
+static int us_init(ABT_sched sched, ABT_sched_config config)
+{
+    usched *d = (usched *)calloc(1, sizeof *d);
+    d->freq = 1;
+    ABT_OK(ABT_sched_config_read(config, 2, &d->freq, &d->legacy_run));
+    ABT_OK(ABT_sched_get_num_pools(sched, &d->n));
+    SIM_CHECK(d->n >= 1 && d->n <= 4, "infra:usched-pools", "user scheduler with %d pools", d->n);
+    ABT_OK(ABT_sched_get_pools(sched, d->n, 0, d->pools));
+    ABT_OK(ABT_sched_set_data(sched, d));
+    return ABT_SUCCESS;
+}
+static void us_run(ABT_sched sched)
+{
+    usched *d;
+    ABT_OK(ABT_sched_get_data(sched, (void **)&d));
+    int work = 0, first = 0;
+    for (;;) {
+        int found = 0;
+        for (int i = 0; i < d->n && !found; i++) {
+            ABT_pool pool = d->pools[(first + i) % d->n];
+            if (d->legacy_run) {
+                ABT_unit unit;
+                ABT_OK(ABT_pool_pop(pool, &unit));
+                if (unit != ABT_UNIT_NULL) {
+                    found = 1;
+                    us_units_run++;
+                    ABT_OK(ABT_xstream_run_unit(unit, pool));
+                }
+            } else {
+                ABT_thread th;
+                ABT_OK(ABT_pool_pop_thread(pool, &th));
+                if (th != ABT_THREAD_NULL) {
+                    found = 1;
+                    us_units_run++;
+                    ABT_OK(ABT_self_schedule(th, ABT_POOL_NULL));
+                }
+            }
+        }
+        first++;
+        if (!found || ++work >= d->freq) {
+            work = 0;
+            ABT_bool stop;
+            ABT_OK(ABT_sched_has_to_stop(sched, &stop));
+            if (stop == ABT_TRUE)
+                break;
+            ABT_OK(ABT_xstream_check_events(sched));
+        }
+    }
+}
+static int us_free(ABT_sched sched)
+{
+    usched *d;
+    ABT_OK(ABT_sched_get_data(sched, (void **)&d));
+    free(d);
+    return ABT_SUCCESS;
+}
+ABT_sched wl_make_user_sched(int n, ABT_pool *pools)
+{
+    ABT_sched_def def = { .type = ABT_SCHED_TYPE_ULT, .init = us_init, .run = us_run, .free = us_free, .get_migr_pool = NULL };
+    ABT_sched_config cfg;
+    ABT_sched sched;
+    static const int freqs[] = { 1, 2, 5, 16 };
+    ABT_OK(ABT_sched_config_create(&cfg, us_cv_freq, freqs[plan_n(4)], us_cv_legacy, (int)plan_n(2), ABT_sched_config_automatic, ABT_TRUE, ABT_sched_config_var_end));
+    ABT_OK(ABT_sched_create(&def, n, pools, cfg, &sched));
+    ABT_OK(ABT_sched_config_free(&cfg));
+    return sched;
+}
+
 static int pick_sched(int flags)
 {
     if (flags & WL_RT_BASIC_ONLY)
         return 0;
+    if (!(flags & WL_RT_PREDEF_SCHEDS) && plan_n(6) == 0)
+        return 4;
     int k = (int)plan_n(4);
     if ((flags & WL_RT_NO_WAIT_SCHED) && k == 1)
         k = 0;
@@ -207,6 +290,7 @@ void wl_rt_start(wl_rt *rt, int flags)
     memset(rt, 0, sizeof *rt);
     nupq = 0;
     up_creates = up_frees = 0;
+    us_units_run = 0;
     wl_env_swarm();
     ABT_OK(ABT_init(0, NULL));
     int maxes = sim_limit("es", 4);
@@ -239,7 +323,10 @@ void wl_rt_start(wl_rt *rt, int flags)
         if (topo != 0)
             ps[n++] = shared;
         rt->sched_kind[0] = pick_sched(flags);
-        ABT_OK(ABT_xstream_set_main_sched_basic(rt->xs[0], sched_predefs[rt->sched_kind[0]], n, ps));
+        if (rt->sched_kind[0] == 4)
+            ABT_OK(ABT_xstream_set_main_sched(rt->xs[0], wl_make_user_sched(n, ps)));
+        else
+            ABT_OK(ABT_xstream_set_main_sched_basic(rt->xs[0], sched_predefs[rt->sched_kind[0]], n, ps));
     } else {
         ABT_pool p;
         ABT_OK(ABT_xstream_get_main_pools(rt->xs[0], 1, &p));
@@ -261,7 +348,10 @@ void wl_rt_start(wl_rt *rt, int flags)
         if (topo != 0)
             ps[n++] = shared;
         rt->sched_kind[e] = pick_sched(flags);
-        ABT_OK(ABT_xstream_create_basic(sched_predefs[rt->sched_kind[e]], n, ps, ABT_SCHED_CONFIG_NULL, &rt->xs[e]));
+        if (rt->sched_kind[e] == 4)
+            ABT_OK(ABT_xstream_create(wl_make_user_sched(n, ps), &rt->xs[e]));
+        else
+            ABT_OK(ABT_xstream_create_basic(sched_predefs[rt->sched_kind[e]], n, ps, ABT_SCHED_CONFIG_NULL, &rt->xs[e]));
     }
     sim_note("rt{nes=%d topo=%d scheds=", nes, topo);
     for (int e = 0; e < nes; e++)
@@ -288,6 +378,8 @@ void wl_rt_stop(wl_rt *rt)
     SIM_CHECK(up_creates == up_frees, "upool:unit-leaked", "user pools: create_unit was called %ld times, free_unit %ld times by the end of ABT_finalize", up_creates, up_frees);
     if (nupq)
         sim_count("rt.user_pool_units", (uint64_t)up_creates);
+    if (us_units_run)
+        sim_count("rt.user_sched_units_run", (uint64_t)us_units_run);
 }
 
 ABT_pool wl_any_pool(wl_rt *rt)
